@@ -23,14 +23,19 @@ type vfs struct {
 	dirs    []string
 	ops     int // mutating operations performed
 	crashAt int // 1-based index of the mutating operation to interrupt (0 = never)
+	failAt  int // 1-based index of the mutating operation that fails with an I/O error (0 = never)
 	paths   []Str
 	handles map[*Obj]*vhandle
 	tmpN    int
 }
 
 type vhandle struct {
-	f   *vfile
-	pos int
+	f        *vfile
+	pos      int
+	name     Str
+	dir      string // non-empty: a directory handle
+	writable bool
+	app      bool
 }
 
 func (e *Exec) fs() *vfs {
@@ -119,6 +124,15 @@ func (e *Exec) vMutating() bool {
 	return fs.crashAt > 0 && fs.ops == fs.crashAt
 }
 
+// fault injection: the current mutating operation (vMutating was just called)
+// fails with an I/O error instead of being carried out
+func (e *Exec) vFailNow() bool {
+	fs := e.fs()
+	return fs.failAt > 0 && fs.ops == fs.failAt
+}
+
+func (e *Exec) vIOErr(op string, p Str) Iface { return e.vfsErr(op, p, "input/output error", false) }
+
 func (e *Exec) vCrash(op string) {
 	t := e.modelType("VFSCrash")
 	a := e.zero(t).(Agg)
@@ -163,10 +177,20 @@ func init() {
 				e.vCrash("WriteFile (before)")
 			}
 		}
+		fail := e.vFailNow()
+		if fail && e.choice(0, 1) == 0 {
+			return e.vIOErr("open", p) // nothing was created
+		}
 		f := e.vfind(p)
 		if f == nil {
 			f = &vfile{path: p}
 			e.fs().files = append(e.fs().files, f)
+		}
+		if fail {
+			// created/truncated, a prefix written, then the error (disk full)
+			j := int(e.choice(0, int64(len(data))))
+			f.data = append([]*Term(nil), data[:j]...)
+			return e.vIOErr("write", p)
 		}
 		if crash {
 			// created/truncated, then a prefix of j bytes was written
@@ -186,6 +210,9 @@ func init() {
 		crash := e.vMutating()
 		if crash && e.choice(0, 1) == 0 {
 			e.vCrash("Rename (before)")
+		}
+		if e.vFailNow() {
+			return e.vIOErr("rename", from)
 		}
 		f := e.vfind(from)
 		if f == nil {
@@ -214,22 +241,14 @@ func init() {
 		if crash && e.choice(0, 1) == 0 {
 			e.vCrash("Remove (before)")
 		}
+		if e.vFailNow() {
+			return e.vIOErr("remove", p)
+		}
 		e.vRemove(f)
 		if crash {
 			e.vCrash("Remove (after)")
 		}
 		return Iface{}
-	})
-	reg("os.Open", func(e *Exec, args []Value, fn *ssa.Function) Value {
-		p := e.vpath(args[0])
-		e.vRecord(p)
-		f := e.vfind(p)
-		if f == nil {
-			return Tuple{Ptr{}, e.vfsErr("open", p, "no such file or directory", true)}
-		}
-		o := e.allocZero(e.pkgType("os", "File"), "os.File")
-		e.fs().handles[o] = &vhandle{f: f}
-		return Tuple{Ptr{o: o}, Iface{}}
 	})
 	reg("(*os.File).Read", func(e *Exec, args []Value, fn *ssa.Function) Value {
 		p := args[0].(Ptr)
@@ -237,6 +256,9 @@ func init() {
 		h := e.fs().handles[p.o]
 		if h == nil {
 			e.unsupported("Read on a file that was not opened through the model")
+		}
+		if h.dir != "" {
+			return Tuple{e.tc.Const(64, 0), e.vfsErr("read", h.name, "is a directory", false)}
 		}
 		buf := args[1].(Slice)
 		if h.pos >= len(h.f.data) {
